@@ -27,6 +27,7 @@ func checkC16(c *core.Ctx) {
 	c16Define(c)
 	c16LoadPop(c)
 	c16Tee(c)
+	c16AnalysisNew(c)
 }
 
 type itpRig struct {
@@ -480,4 +481,87 @@ func c16Tee(c *core.Ctx) {
 		}
 		c.Check(bad == "" && n == 4, rC16Tee, "factstore.TeeingTemporalStore:reads", add.Decl.Pos(), "all four read operations consult the base and the output layer", bad)
 	}
+	teeTemporalCount(c, rC16Tee)
+}
+
+// teeTemporalCount: the layered temporal store counts the facts of both layers (the engine's total
+// fact limit is compared with this count).
+func teeTemporalCount(c *core.Ctx, rule string) {
+	f := c.MustFunc(rule, "factstore", "TeeingTemporalStore.EstimateFactCount")
+	if f == nil {
+		return
+	}
+	in := ordabs.New(c.Prog)
+	base := &ordabs.Obj{Name: "base", Opaque: true}
+	outl := &ordabs.Obj{Name: "out", Opaque: true}
+	for _, n := range []string{"factstore.TemporalFactStore", "factstore.ReadOnlyTemporalFactStore", "factstore.TemporalStore"} {
+		in.Stubs[n+".EstimateFactCount"] = func(in *ordabs.Interp, recv ordabs.Value, _ []ordabs.Value) ([]ordabs.Value, error) {
+			if recv == ordabs.Value(base) {
+				return []ordabs.Value{int64(70)}, nil
+			}
+			return []ordabs.Value{int64(900)}, nil
+		}
+	}
+	tee := &ordabs.Obj{Name: "tee", Fields: map[string]ordabs.Value{"base": base, "Out": outl}, T: "factstore.TeeingTemporalStore"}
+	out, err := in.Call(f, tee, nil)
+	if !runORD(c, rule, f.Name, f, err) {
+		return
+	}
+	got, _ := out[0].(int64)
+	c.Check(got == 970, rule, f.Name, f.Decl.Pos(), "base layer + output layer", fmt.Sprintf("the base layer holds 70 facts and the output layer 900: EstimateFactCount = %d, want 970 (a fact limit compared with the count of one layer never sees the facts derived into the other)", got))
+}
+
+const rC16Known = "ORDABS.known-predicates-not-written"
+
+// c16AnalysisNew: the analyzer is built from the interpreter's table of known predicates; building it must not
+// change that table (a user declaration overrides a synthetic one inside the analyzer only).
+func c16AnalysisNew(c *core.Ctx) {
+	c.Rule(rC16Known, "analysis.New, read from source and evaluated with a table of known predicates that contains a synthetic declaration and a user declaration overriding it: the caller's table has the same entries afterwards, and the analyzer does not see the overridden synthetic entry", 1)
+	f := c.MustFunc(rC16Known, "analysis", "New")
+	if f == nil {
+		return
+	}
+	k := &astKit{c: c, ok: true}
+	in := ordabs.New(c.Prog)
+	in.Stubs["ast.Decl.IsSynthetic"] = func(in *ordabs.Interp, recv ordabs.Value, _ []ordabs.Value) ([]ordabs.Value, error) {
+		r, _ := recv.(*ordabs.Rec)
+		syn, _ := r.Fields["__synthetic"].(bool)
+		return []ordabs.Value{syn}, nil
+	}
+	in.Stubs["ast.Decl.String"] = func(in *ordabs.Interp, _ ordabs.Value, _ []ordabs.Value) ([]ordabs.Value, error) {
+		return []ordabs.Value{"<decl>"}, nil
+	}
+	in.Stubs["ast.PredicateSym.String"] = in.Stubs["ast.Decl.String"]
+	mkDecl := func(p string, synthetic bool) *ordabs.Rec {
+		d := k.zero("ast", "Decl")
+		d.Fields["DeclaredAtom"] = k.atom(p, 1)
+		d.Fields["__synthetic"] = synthetic
+		return d
+	}
+	if !k.ok {
+		c.Unres(rC16Known, f.Name, f.Decl.Pos(), "anchor-unresolved: ast.Decl")
+		return
+	}
+	known := ordabs.NewMap()
+	for _, p := range []string{"p", "q"} {
+		ps := predSym(p, 1)
+		known.M[ordabs.KeyString(ps)], known.Keys[ordabs.KeyString(ps)] = mkDecl(p, true), ps
+	}
+	decls := []ordabs.Value{mkDecl("p", false)}
+	out, err := in.Call(f, nil, []ordabs.Value{known, &ordabs.Slice{Elems: &decls}, int64(0)})
+	if !runORD(c, rC16Known, f.Name, f, err) {
+		return
+	}
+	bad := ""
+	if got := mapSyms(known); got != "p,q" {
+		bad = fmt.Sprintf("after analysis.New the caller's table of known predicates holds {%s}, it held {p,q}: a later pop or a failed definition restores a table that has lost a live predicate", got)
+	}
+	if an, _ := out[0].(*ordabs.Obj); an != nil && bad == "" {
+		if got := mapSyms(an.Fields["extraPredicates"]); got != "q" {
+			bad = fmt.Sprintf("the analyzer's extra predicates are {%s}, want {q}: the synthetic declaration of p is overridden by the user's", got)
+		}
+	} else if bad == "" {
+		bad = "analysis.New did not return an analyzer"
+	}
+	c.Check(bad == "", rC16Known, f.Name, f.Decl.Pos(), "the caller's table is unchanged; the override happens in the analyzer's own copy", bad)
 }
